@@ -94,9 +94,16 @@ add("C13", "other",
     "Proved (bit-vector VCs generated from the AST of the nested functions by guarded unrolling, one query per reader state): uvar_get(nbin) returns "
     "q * 2^nbin + field for a code of q zeros, a one and nbin bits, consumes exactly q + 1 + nbin bits and leaves the unread bits of its word "
     "buffer equal to the next bits of the stream, for every buffer fill 0..32, every field width 0..32 and every following words, for unary runs "
-    "q <= 8 (quick) / 24 (thorough); var_get is the zig-zag inverse of uvar_get(nbin+1); masktab[n] has the n low bits set. Everything else of "
-    "the decoder (commands, predictors, running means, bit shifts, mu-law tables, error classes) is decided by the bounded stand-in: round trips "
-    "through an independent encoder, the six sph2pipe vectors, exhaustive checks of the arithmetic helpers." + MIX, TB)
+    "q <= 8 (quick) / 24 (thorough); var_get is the zig-zag inverse of uvar_get(nbin+1); masktab[n] has the n low bits set. Proved over "
+    "mathematical integers on mechanically selected statement slices of copy_shortened_samples, for all block sizes, histories, predictor orders, "
+    "mean lengths and shifts: one block command (ZERO, DIFF0-3, QLPC; versions 1 and 2) decodes to exactly the samples of the encoder's equations, "
+    "wraps the history before the bit-shift fix-up, updates the running mean as the encoder does, consumes the documented Rice values and touches "
+    "no other channel; the command loop interleaves channel-major blocks into sample-major output (1-3 channels), cycles channels, returns only "
+    "on QUIT and raises on an unknown command; the stream header raises on a short buffer / unknown version / unknown type and reads its six "
+    "fields in order; the set-up establishes the block contract's entry conditions; word_get refills without losing or repeating a byte and "
+    "raises when the stream ends early; fix_bitshift and c99_div meet shorten's definitions. int32 wrap-around, floating-point division and whole "
+    "streams are decided by the bounded stand-in: round trips through an independent encoder, the six sph2pipe vectors, exhaustive checks of the "
+    "arithmetic helpers." + MIX, TB)
 add("C14", "other",
     "Proved: pytorch_stft_frame_computer against the same specification as the NumPy computer, for every length/shift/DFT size/flag in the three "
     "framing modes and N >= L or N < L//2+1 (frame count and empty shape, padded signal = spec frames, as_strided memory safety, the mirrored "
